@@ -104,15 +104,16 @@ Theorem C05_shrink_no_fault :
 Proof. exact shrink_no_fault. Qed.
 
 Theorem C05_build_once_with_element_layout :
-  forall (c : cfg) (v0 : vec) (u : uw),
-         mem_build c BReloc (v0, u) =
+  forall (c : cfg) (c0 : N) (v0 : vec) (u : uw),
+         mem_build c (BReloc c0) (v0, u) =
          Ok tt
-           ({| vlen := 0; vcap := 0; vmem := []; vgen := 0; vbk := BReloc |}, emit (EBuild (c_sz c) (c_al c)) u).
+           ({| vlen := 0; vcap := c0; vmem := uninit (N.to_nat (c_sz c * c0)); vgen := 0; vbk := BReloc c0 |},
+            emit (EBuild (c_sz c) (c_al c)) u).
 Proof. exact build_reloc_event. Qed.
 
 Theorem C05_shrink_never_below_len :
-  forall (c : cfg) (v : vec) (u : uw) (m : N),
-         vbk v = BReloc ->
+  forall (c : cfg) (c0 : N) (v : vec) (u : uw) (m : N),
+         vbk v = BReloc c0 ->
          forall r : res st unit,
          shrink_to c m (v, u) = r ->
          r = Ok tt (v, u) /\ vcap v <= N.max (vlen v) m \/
@@ -120,15 +121,15 @@ Theorem C05_shrink_never_below_len :
 Proof. exact shrink_request_ge_len. Qed.
 
 Theorem C05_shrink_to_fit_request :
-  forall (c : cfg) (v : vec) (u : uw),
-         vbk v = BReloc -> shrink_to_fit c (v, u) = reloc_resize c (vlen v) (v, emit (EResize (vlen v)) u).
+  forall (c : cfg) (c0 : N) (v : vec) (u : uw),
+         vbk v = BReloc c0 -> shrink_to_fit c (v, u) = reloc_resize c (vlen v) (v, emit (EResize (vlen v)) u).
 Proof. exact shrink_to_fit_request. Qed.
 
 Theorem C05_release_after_elements :
-  forall (c : cfg) (v : vec) (u : uw) (xs : list N),
+  forall (c : cfg) (c0 : N) (v : vec) (u : uw) (xs : list N),
          Rep c v xs ->
          ufuse u = None ->
-         vbk v = BReloc ->
+         vbk v = BReloc c0 ->
          exists (v' : vec) (u' : uw),
            drop_vec c (v, u) = Ok tt (v', u') /\
            vlen v' = 0 /\ ulog u' = EMemDrop :: (if c_dg c then rev (map EDrop xs) else []) ++ ulog u.
